@@ -86,6 +86,10 @@ def run(prop, tier, replay, t0):
         f_case = [f for f in findings if not f.replay.endswith(".bin")]
         ids = [f.id for f in findings]
         runs, max_len, jobs, per_shard, max_size, cap = TIERS["quick" if tier == "quick" else "thorough"]
+        scale = float(os.environ.get("VERIF_C12_SCALE", "1"))     # development aid (loaded machine); recorded below
+        if scale != 1:
+            runs, per_shard = max(jobs, int(runs * scale)), max(1, int(per_shard * scale))
+            out.notes.append("VERIF_C12_SCALE=%s: budgets scaled (development run, not the registered tier)" % scale)
 
         # 1. saved inputs: known findings (printed while they still fail) and regression inputs (must pass)
         vlib.run_saved_replays(prop, rcbin, wd, out, f_case)
